@@ -146,7 +146,7 @@ theorem angularDOld_evanescent_grows {k z κ2 : ℝ} (h : k ^ 2 < κ2) (hz : z <
 waves on a 2-D grid: for an 8×8 grid with pixel `5λ/8` the corner frequencies have negative radicand. -/
 theorem stated_regime_admits_evanescent :
     ∃ p : Params, p.kind = .angular ∧ statedRegime p = true ∧ noEvanescent p = false :=
-  ⟨{ kind := .angular, nx := 8, ny := 8, dx := 5/8, dy := 5/8, lam := 1, z := -1/4, n := 1, q := 2, s := 1 },
+  ⟨{ kind := .angular, nx := 8, ny := 8, dx := 5/8, dy := 5/8, lam := 1, z := -1/4, n := 1, qx := 2, qy := 2, sx := 1, sy := 1 },
     by decide +kernel⟩
 
 /-! ## `forward(-z) = backward(+z)` -/
@@ -295,13 +295,13 @@ theorem filter_congr (P : FourierPair μ) (e : ι → μ) {D D' : μ → ℂ} (h
 
 /-- `distance`, `refractive_index`, `num_oversampling` and the wavelength leave the padded sizes and the
 cut-out untouched (the internal array keeps its shape); only `zero_padding` changes them. -/
-theorem sizes_unchanged_by_setter (p : Params) (su : Setter) (h : ∀ q, su ≠ .zeroPadding q) :
+theorem sizes_unchanged_by_setter (p : Params) (su : Setter) (h : ∀ qx qy, su ≠ .zeroPadding qx qy) :
     mx (withParam p su) = mx p ∧ my (withParam p su) = my p ∧ cutout (withParam p su) = cutout p := by
   cases su with
-  | zeroPadding q => exact absurd rfl (h q)
+  | zeroPadding qx qy => exact absurd rfl (h qx qy)
   | distance z => exact ⟨rfl, rfl, rfl⟩
   | refractiveIndex n => exact ⟨rfl, rfl, rfl⟩
-  | oversampling s => exact ⟨rfl, rfl, rfl⟩
+  | oversampling sx sy => exact ⟨rfl, rfl, rfl⟩
   | wavelength lam => exact ⟨rfl, rfl, rfl⟩
 
 /-- The branch taken after `prop.distance = z` is decided by the new distance alone (other parameters as
@@ -337,6 +337,25 @@ theorem afterSetters_distance_last (p : Params) (l : List Setter) (z : ℚ) :
   refine ⟨?_, grid _ p⟩
   rw [afterSetters_append]
   rfl
+
+/-- Per-axis padding: when only `y` is padded (`zero_padding = [1, q]`, or a scalar whose rounding leaves the
+`x` size unchanged) the cut-out spans complete rows `0 … nx` — it is one contiguous block of the internal
+array (the shape in which a careless `reshape` returns a view instead of a copy). -/
+theorem cutout_full_rows_of_x_unpadded (p : Params) (hx : mx p = p.nx) (hy : my p ≠ p.ny) :
+    cutout p = some (cutStart (my p) p.ny, cutStart (my p) p.ny + p.ny, 0, p.nx) := by
+  unfold cutout
+  rw [if_neg (fun h => hy h.2), hx]
+  simp [cutStart]
+
+/-- A padding factor of exactly one leaves that axis unpadded, whatever the other axis does. -/
+theorem padded_one (N : ℕ) : padded 1 N = N := by
+  unfold padded roundHalfEven
+  have h1 : ((1 : ℚ) * (N : ℚ)).floor = (N : ℤ) := by
+    rw [one_mul, ← Int.cast_natCast]; exact Rat.floor_intCast _
+  simp only [h1]
+  have h2 : (1 : ℚ) * (N : ℚ) - ((N : ℤ) : ℚ) = 0 := by push_cast; ring
+  rw [h2]
+  norm_num
 
 /-! ## the executable model's exact phases are the phases of these transfer functions -/
 
